@@ -317,6 +317,7 @@ func init() {
 					}})
 				}
 			}
+			us = append(us, largeUnit(tier, "[]float64", "Boundary"))
 			return us
 		},
 		RequireCover: func(tier string) []string {
